@@ -1,5 +1,4 @@
-import PGA.Proofs.Pipeline
-import PGA.Proofs.PipelineKeys
+import PGA.Proofs.PipelineCompose
 import PGA.Props.C07
 import PGA.Props.C19
 import PGA.Props.C20
@@ -17,41 +16,13 @@ library, molecule graph and temperature:
   `A ⊔ B`: values add up, failures propagate stage by stage, the range is the intersection, `xᵀMx` gets a cross term;
 * `PIPE_spelling_*` (C19 ∘ C14/C01) — how a library file spells a group does not matter, how a *string key* spells it does;
 * `PIPE_dimensional_*` (∘ C07) — all of the above for `H`, `G`, `S`, `Cp` in units.
+
+Vocabulary (`SameVal`, `SumVal`, `Agree`, `NDSame`, `NDSum`, `SameOutcome`, `UnionHyps`, `SeparatedMol`, `PKind`, `mixP`, `mixRange`,
+`EstKind`, `outcomeKind`, `mixKind`, `specBilin`, `SameSpelling`) in `PGA/Spec/Pipeline.lean`; helper lemmas in
+`PGA/Proofs/Pipeline.lean`, `PipelineKeys.lean`, `PipelineCompose.lean`.
 -/
 namespace PGA.Pipeline
 open PGA PGA.Spec PGA.Scheme PGA.Decompose PGA.Match PGA.Estimate
-
-/-! ### vocabulary -/
-
-/-- two getter results do not contradict each other: where both are values, they are the same value -/
-def Agree (a b : Val) : Prop := ∀ v v', a = .ok v → b = .ok v' → v = v'
-
-/-- the same value, or both fail -/
-def SameVal (a b : Val) : Prop := ∀ v, a = .ok v ↔ b = .ok v
-
-/-- `u` is a value exactly when `a` and `b` are, and then it is their sum -/
-def SumVal (u a b : Val) : Prop := ∀ v, u = .ok v ↔ ∃ x y, a = .ok x ∧ b = .ok y ∧ v = x + y
-
-/-- two correlation objects return the same `Cp/R`, `H/RT`, `S/R` (for every temperature and `S_elements` flag) -/
-structure NDSame (o o' : ND) : Prop where
-  cp : ∀ T, SameVal (o.cp T) (o'.cp T)
-  hort : ∀ T, SameVal (o.hort T) (o'.hort T)
-  sor : ∀ T flag, SameVal (o.sor T flag) (o'.sor T flag)
-
-/-- `oU = oA + oB` for `Cp/R`, `H/RT`, `S/R` -/
-structure NDSum (oU oA oB : ND) : Prop where
-  cp : ∀ T, SumVal (oU.cp T) (oA.cp T) (oB.cp T)
-  hort : ∀ T, SumVal (oU.hort T) (oA.hort T) (oB.hort T)
-  sor : ∀ T flag, SumVal (oU.sor T flag) (oA.sor T flag) (oB.sor T flag)
-
-/-- Two pipeline outcomes are the same as far as the caller can tell: the same failure (a missing-data error naming the
-same descriptors, possibly in another order), or estimates with the same validity range and the same values. -/
-structure SameOutcome (sel : Nat → Option Rat) (r r' : Except Err Estimator) : Prop where
-  patternMatch : r' = .error .patternMatch ↔ r = .error .patternMatch
-  estimateError : ∀ err, r = .error (.estimate err) →
-    ∃ err', r' = .error (.estimate err') ∧ estKind err' = estKind err ∧
-      ∀ ds, err = .missing ds → ∃ ds', err' = .missing ds' ∧ ds'.Perm ds
-  estimate : ∀ e, r = .ok e → ∃ e', r' = .ok e' ∧ e'.range = e.range ∧ NDSame (e.toND sel) (e'.toND sel)
 
 /-- the driver (`PGA/Drv/Pipeline.lean`) decomposes a molecule once and runs `estimateOf` for each temperature's library: what it
 reports is `pipeline` -/
@@ -183,70 +154,6 @@ theorem PIPE_value_depends_on_counts_only_full_fails : ¬ PIPE_value_depends_on_
 
 /-! ### C03 ∘ C01 — renumbering the atoms -/
 
-/-- the estimate on record under another molecule: only the elemental term can tell -/
-theorem withName_HoRT (nm : Option (List Nat)) (e : Estimator) (T : Rat) : (withName nm e).HoRT T = e.HoRT T := rfl
-theorem withName_CpoR (nm : Option (List Nat)) (e : Estimator) (T : Rat) : (withName nm e).CpoR T = e.CpoR T := rfl
-
-/-- the elemental term of two atom lists that are reorderings of each other -/
-theorem selements_perm (sel : Nat → Option Rat) {a a' : List Nat} (h : a.Perm a') (v : Rat) :
-    selements sel (some a) = .ok v ↔ selements sel (some a') = .ok v := by
-  rw [C07_selements, C07_selements, (h.map (selD sel)).sum_eq]
-  constructor
-  · rintro ⟨h1, h2⟩; exact ⟨fun z hz => h1 z (h.mem_iff.mpr hz), h2⟩
-  · rintro ⟨h1, h2⟩; exact ⟨fun z hz => h1 z (h.mem_iff.mp hz), h2⟩
-
-/-- **Core of the invariance theorems.** If two molecules decompose to dictionaries that list the same entries in possibly
-different orders, and carry the same atoms in possibly different orders, the pipeline cannot tell them apart. -/
-theorem sameOutcome_of_perm (sel : Nat → Option Rat) (reg : List String) (S : SchemeDef) (lib : Lib) (set : String)
-    (m m' : Mol) (hpm : decompose S m' = .error .patternMatch ↔ decompose S m = .error .patternMatch)
-    (hperm : ∀ c c', decompose S m = .ok c → decompose S m' = .ok c' → c.Perm c')
-    (hatoms : (atomsOf m).Perm (atomsOf m')) :
-    SameOutcome sel (pipeline reg S lib m set) (pipeline reg S lib m' set) := by
-  have hdec : ∀ c, decompose S m = .ok c → ∃ c', decompose S m' = .ok c' ∧ c.Perm c' := by
-    intro c hc
-    cases hc' : decompose S m' with
-    | error e =>
-      cases e
-      have := hpm.mp hc'
-      rw [hc] at this; cases this
-    | ok c' => exact ⟨c', rfl, hperm c c' hc hc'⟩
-  refine ⟨?_, ?_, ?_⟩
-  · rw [pipeline_patternMatch_iff, pipeline_patternMatch_iff]; exact hpm
-  · intro err herr
-    obtain ⟨c, hc, he⟩ := (pipeline_esterr_iff reg S lib m set err).mp herr
-    obtain ⟨c', hc', hp⟩ := hdec c hc
-    obtain ⟨hk, hmiss⟩ := estimate_perm_kind reg lib set hp
-    cases he' : estimate reg lib c' set with
-    | ok e' => rw [he, he'] at hk; cases hk
-    | error err' =>
-      refine ⟨err', (pipeline_esterr_iff reg S lib m' set err').mpr ⟨c', hc', he'⟩, ?_, ?_⟩
-      · rw [he, he'] at hk
-        simpa [kindOf] using hk
-      · rintro ds rfl
-        obtain ⟨ds', h1, h2⟩ := hmiss ds he
-        rw [he'] at h1
-        cases h1
-        exact ⟨ds', rfl, h2⟩
-  · intro e hok
-    obtain ⟨c, e0, hc, he0, rfl⟩ := (pipeline_ok_iff reg S lib m set e).mp hok
-    obtain ⟨c', hc', hp⟩ := hdec c hc
-    obtain ⟨e0', he0', hcorr, _, hrange⟩ := estimate_perm reg lib set e0 hp he0
-    refine ⟨withName (some (atomsOf m')) e0', (pipeline_ok_iff reg S lib m' set _).mpr ⟨c', e0', hc', he0', rfl⟩, hrange, ?_⟩
-    refine ⟨fun T v => ?_, fun T v => ?_, fun T flag v => ?_⟩
-    · exact C01_perm_Cp reg lib set e0 e0' T v hp he0 he0'
-    · exact C01_perm_H reg lib set e0 e0' T v hp he0 he0'
-    · show (withName (some (atomsOf m)) e0).SoR sel T flag = .ok v ↔ (withName (some (atomsOf m')) e0').SoR sel T flag = .ok v
-      rw [SoR_ok_iff, SoR_ok_iff]
-      have hw : ∀ s, wsum (·.sor T) e0.correlations = .ok s ↔ wsum (·.sor T) e0'.correlations = .ok s :=
-        fun s => (wsum_perm _ hcorr s).symm
-      show (∃ sele s, (if flag.truthy then selements sel (some (atomsOf m)) else .ok 0) = .ok sele ∧
-          wsum (·.sor T) e0.correlations = .ok s ∧ v = s - sele) ↔
-        (∃ sele s, (if flag.truthy then selements sel (some (atomsOf m')) else .ok 0) = .ok sele ∧
-          wsum (·.sor T) e0'.correlations = .ok s ∧ v = s - sele)
-      by_cases hf : flag.truthy = true
-      · simp only [hf, if_true, hw, selements_perm sel hatoms]
-      · simp only [hf, hw, Bool.false_eq_true, if_false]
-
 /-- **C03 ∘ C01: the pipeline does not see how the atoms are numbered.**  Under the hypotheses of `C03_decompose_relabel`
 — `m'` is `m` with its atoms renumbered by any bijection `π` (`MolIso π m m'`: atoms renamed; bonds renamed, in any order;
 rings renamed, in the same order), the graph well-formed, the scheme's queries well-formed (reader), no `*` suffix, every
@@ -357,69 +264,6 @@ end ExRelabel
 
 /-! ### C04 ∘ C01 — a mixture `A ⊔ B` -/
 
-/-- the hypotheses of `C04_decompose_union`, quoted: both graphs well-formed; the scheme's queries well-formed and
-connected (guaranteed by the reader: `C02_load_wf`, `C04_load_connected`), without `*` suffix and without molecule-level
-prefix (observed on every shipped scheme by the harness); candidate counts below the cap on the three aromatised graphs;
-chain-free remap table -/
-structure UnionHyps (S : SchemeDef) (A B : Mol) : Prop where
-  hA : A.wf = true
-  hB : B.wf = true
-  hq : S.wf = true
-  hs : S.noStar = true
-  hmp : S.noMolPrefix = true
-  hcn : S.connected = true
-  capa : maxRaw S (aromatizeBenson A) < maxMatches
-  capb : maxRaw S (aromatizeBenson B) < maxMatches
-  capu : maxRaw S ((aromatizeBenson A).union (aromatizeBenson B)) < maxMatches
-  hcf : ChainFree S.remaps
-
-/-- hypothesis `Separated` of `C04_decompose_union` for the two graphs: no name produced on the correction-descriptor side
-of either part carries a group count in either part (otherwise the final `dict.update` replaces a group count and the
-*counts* are not additive; the *names* are in any case) -/
-def SeparatedMol (S : SchemeDef) (A B : Mol) : Prop :=
-  ∀ asgA asgB, assignCentres (toInput S (aromatizeBenson A)) = .ok asgA →
-    assignCentres (toInput S (aromatizeBenson B)) = .ok asgB →
-    Separated (toInput S (aromatizeBenson A)) (toInput S (aromatizeBenson B)) asgA asgB
-
-/-- what the three decompositions have to do with each other (C04 and its key-set companion) -/
-theorem union_counts {S : SchemeDef} {A B : Mol} (H : UnionHyps S A B) (rU rA rB : Counts)
-    (hU : decompose S (A.union B) = .ok rU) (hrA : decompose S A = .ok rA) (hrB : decompose S B = .ok rB) :
-    (Counts.keys rU).Nodup ∧ (Counts.keys rA).Nodup ∧ (Counts.keys rB).Nodup ∧
-    (∀ k, k ∈ Counts.keys rU ↔ k ∈ Counts.keys rA ∨ k ∈ Counts.keys rB) ∧
-    (SeparatedMol S A B → ∀ k, rU.get k = rA.get k + rB.get k) := by
-  refine ⟨decompose_nodup _ _ _ hU, decompose_nodup _ _ _ hrA, decompose_nodup _ _ _ hrB,
-    decompose_union_keys S A B H.hA H.hB H.hq H.hs H.hmp H.hcn H.capa H.capb H.capu H.hcf rU rA rB hU hrA hrB, ?_⟩
-  intro hsep k
-  obtain ⟨a, ha, _⟩ := getDescriptors_ok _ rA hrA
-  obtain ⟨b, hb, _⟩ := getDescriptors_ok _ rB hrB
-  exact (PGA.C04.C04_decompose_union S A B H.hA H.hB H.hq H.hs H.hmp H.hcn H.capa H.capb H.capu H.hcf).2
-    rU rA rB a b hU hrA hrB ha hb (hsep a b ha hb) k
-
-/-- the union decomposes when both parts do -/
-theorem union_decomposes {S : SchemeDef} {A B : Mol} (H : UnionHyps S A B) (rA rB : Counts)
-    (hrA : decompose S A = .ok rA) (hrB : decompose S B = .ok rB) : ∃ rU, decompose S (A.union B) = .ok rU := by
-  cases hU : decompose S (A.union B) with
-  | ok rU => exact ⟨rU, rfl⟩
-  | error e =>
-    cases e
-    rcases (PGA.C04.C04_decompose_union S A B H.hA H.hB H.hq H.hs H.hmp H.hcn H.capa H.capb H.capu H.hcf).1.mp hU with h | h
-    · rw [hrA] at h; cases h
-    · rw [hrB] at h; cases h
-
-theorem atomsOf_union (A B : Mol) : atomsOf (A.union B) = atomsOf A ++ atomsOf B := by
-  simp [atomsOf, Mol.union]
-
-/-- the elemental term of the union is the sum of the parts' -/
-theorem selements_union (sel : Nat → Option Rat) (A B : Mol) (σ : Rat) :
-    selements sel (some (atomsOf (A.union B))) = .ok σ ↔
-      ∃ a b, selements sel (some (atomsOf A)) = .ok a ∧ selements sel (some (atomsOf B)) = .ok b ∧ σ = a + b := by
-  simp only [C07_selements, atomsOf_union, List.mem_append, List.map_append, List.sum_append]
-  constructor
-  · rintro ⟨h, rfl⟩
-    exact ⟨_, _, ⟨fun z hz => h z (Or.inl hz), rfl⟩, ⟨fun z hz => h z (Or.inr hz), rfl⟩, rfl⟩
-  · rintro ⟨a, b, ⟨h1, rfl⟩, ⟨h2, rfl⟩, rfl⟩
-    exact ⟨fun z hz => hz.elim (h1 z) (h2 z), rfl⟩
-
 /-- **C04 ∘ C01: the estimate of a mixture is the sum of the estimates of its components.**  Under the hypotheses of
 `C04_decompose_union` (`UnionHyps`, and `SeparatedMol`: descriptor-side names carry no group count) and for every
 library, registry and property-set name: if `lib.Estimate(lib.GetDescriptors(x), set)` returns an estimate for `A ⊔ B`,
@@ -467,54 +311,6 @@ theorem PIPE_mixture_additive (sel : Nat → Option Rat) (reg : List String) (S 
     exact commonRange_termsOf_union lib set rU rA rB hk
 
 /-! #### the failure clause -/
-
-/-- where the pipeline stopped (`none`: it returned an estimate) -/
-inductive PKind where
-  | patternMatch
-  | estimate (k : EstKind)
-  deriving DecidableEq, Repr
-
-def pkindOf : Except Err Estimator → Option PKind
-  | .ok _ => none
-  | .error .patternMatch => some .patternMatch
-  | .error (.estimate e) => some (.estimate (estKind e))
-
-def estPart : Option PKind → Option EstKind
-  | some (.estimate k) => some k
-  | _ => none
-
-/-- what the range assertion says of the intersection of the two parts' common ranges (`none`: it passes) -/
-def mixRange (S : SchemeDef) (lib : Lib) (set : String) (A B : Mol) : Option EstKind :=
-  match decompose S A, decompose S B with
-  | .ok rA, .ok rB => rangeKindOf (interRange (commonRange (termsOf lib set rA)) (commonRange (termsOf lib set rB)))
-  | _, _ => none
-
-/-- **The decision table of a mixture's outcome**, by precedence: a part does not decompose → `PatternMatchError`; the
-property-set name is not registered → `KeyError`; a part has a descriptor without data → `GroupMissingDataError`; a part has
-a descriptor outside the uncertainty basis → `ValueError`; the uncertainty matrix does not fit → `ValueError`; otherwise
-the range assertion on the intersection of the parts' ranges decides (`AssertionError` or an estimate). -/
-def mixP (pA pB : Option PKind) (r : Option EstKind) : Option PKind :=
-  if pA = some .patternMatch ∨ pB = some .patternMatch then some .patternMatch
-  else (mixKind (estPart pA) (estPart pB) r).map PKind.estimate
-
-theorem pkindOf_pipeline (reg : List String) (S : SchemeDef) (lib : Lib) (m : Mol) (set : String) :
-    pkindOf (pipeline reg S lib m set) =
-      match decompose S m with
-      | .error _ => some .patternMatch
-      | .ok c => (kindOf (estimate reg lib c set)).map PKind.estimate := by
-  unfold pipeline getDescriptors estimateOf remember
-  cases decompose S m with
-  | error e => cases e; rfl
-  | ok c =>
-    simp only
-    rw [estimate_withName]
-    cases estimate reg lib c set <;> rfl
-
-theorem estPart_map (k : Option EstKind) : estPart (k.map PKind.estimate) = k := by
-  cases k <;> rfl
-
-theorem map_estimate_ne_patternMatch (k : Option EstKind) : k.map PKind.estimate ≠ some PKind.patternMatch := by
-  cases k <;> simp
 
 /-- **C04 ∘ C01, failure clause: exactly when — and how — the pipeline of a mixture fails, given the outcomes of the
 parts.**  Under the hypotheses of `C04_decompose_union` (no separation hypothesis is needed here: failures depend on the
